@@ -38,6 +38,11 @@ type Case struct {
 	Entries  []TEntry `json:"entries,omitempty"`
 	Preserve bool     `json:"preservePermissions,omitempty"`
 	PrePop   int      `json:"prePopulated,omitempty"` // 0 empty wd, 1 files/dirs, 2 also symlinks pointing outside
+	// Then: titles of named blobs pushed into the same store after the archive was
+	// unpacked (what an artifact with several layers does); ThenUnpack: the last of
+	// them is a small archive unpacked at that title
+	Then       []string `json:"then,omitempty"`
+	ThenUnpack bool     `json:"thenUnpack,omitempty"`
 }
 
 var segs = []string{"a", "b", "d1", "d2", "..", ".", "s1", "s2", "victim.txt"}
@@ -91,7 +96,7 @@ func genCase(t *rapid.T) Case {
 		return rapid.SampledFrom([]int64{0o644, 0o600, 0o755, 0o777, 0o4755, 0o444}).Draw(t, label)
 	}
 	add := func(e TEntry) { c.Entries = append(c.Entries, e) }
-	tmpl := rapid.IntRange(0, 12).Draw(t, "template")
+	tmpl := rapid.IntRange(0, 13).Draw(t, "template")
 	pm := rapid.SampledFrom([]int{0, 0, 0, 1, 2}).Draw(t, "prefixMode")
 	switch tmpl {
 	case 0: // symlink, then write through it
@@ -147,6 +152,16 @@ func genCase(t *rapid.T) Case {
 			add(TEntry{Type: "link", Name: "name/h", Link: rapid.SampledFrom([]string{"s2/victim.txt", "s2/odir/f", "s1"}).Draw(t, "h12b")})
 		}
 		add(TEntry{Type: "reg", Name: "name/h", Mode: mode("m"), Data: "through-link-behind-symlink"})
+	case 13: // links that are lexically inside and lead out step by step; the next layers go through them
+		add(TEntry{Type: "sym", Name: "name/a", Link: "."})
+		add(TEntry{Type: "sym", Name: "name/x", Link: "a/.."})
+		add(TEntry{Type: "sym", Name: "name/y", Link: "x/.."})
+		add(TEntry{Type: "sym", Name: "name/l", Link: rapid.SampledFrom([]string{"x/../victim.txt", "y/../victim.txt", "y/out/victim.txt"}).Draw(t, "l13")})
+		k := rapid.IntRange(1, 2).Draw(t, "nThen13")
+		for i := 0; i < k; i++ {
+			c.Then = append(c.Then, rapid.SampledFrom([]string{"name/y/victim.txt", "name/y/new.txt", "name/l", "name/x/victim.txt", "name/y/out/victim.txt", "name/y/wd-backup/n.txt", "name/x/../victim.txt", "name/a/ok.txt"}).Draw(t, "then13"))
+		}
+		c.ThenUnpack = rapid.Bool().Draw(t, "thenUnpack13")
 	case 5: // benign tree
 		add(TEntry{Type: "dir", Name: "name/d1/", Mode: 0o755})
 		add(TEntry{Type: "reg", Name: "name/d1/a", Mode: mode("m"), Data: "hello"})
@@ -372,6 +387,30 @@ func runCase(c Case) (res vt.Result, fail *vt.Fail) {
 	if !fin {
 		vt.ReportHang("main", vt.MustJSON(c), vt.Failf("C11/hang", "Push did not return"), dump)
 	}
+	// further layers of the same artifact: named blobs (or a small archive) whose
+	// titles run through what the first one created
+	var thenErrs []error
+	for i, tt := range c.Then {
+		body := []byte(fmt.Sprintf("then-%d", i))
+		td := ocispec.Descriptor{MediaType: "application/octet-stream", Annotations: map[string]string{ocispec.AnnotationTitle: s.subst(tt)}}
+		if c.ThenUnpack && i == len(c.Then)-1 {
+			sub := Case{Title: tt, Entries: []TEntry{{Type: "dir", Name: "@T/sub/", Mode: 0o755}, {Type: "reg", Name: "@T/sub/f.txt", Mode: 0o644, Data: "then-unpacked"}, {Type: "reg", Name: "@T/victim.txt", Mode: 0o644, Data: "then-unpacked2"}}}
+			var berr error
+			body, berr = buildTarGz(s, &sub)
+			if berr != nil {
+				return res, vt.Failf("harness/tar", "%v", berr)
+			}
+			td.MediaType = "application/vnd.oci.image.layer.v1.tar+gzip"
+			td.Annotations[file.AnnotationUnpack] = "true"
+		}
+		td.Digest, td.Size = digest.FromBytes(body), int64(len(body))
+		var terr error
+		fin, dump := vt.Watch(30*time.Second, func() { terr = store.Push(context.Background(), td, bytes.NewReader(body)) })
+		if !fin {
+			vt.ReportHang("main", vt.MustJSON(c), vt.Failf("C11/hang", "Push did not return"), dump)
+		}
+		thenErrs = append(thenErrs, terr)
+	}
 	store.Close()
 	after, err := fsx.Snapshot(s.root, "wd", "tmp")
 	if err != nil {
@@ -393,9 +432,15 @@ func runCase(c Case) (res vt.Result, fail *vt.Fail) {
 	} else {
 		res.Classes = append(res.Classes, "push-rejected")
 	}
+	if len(c.Then) > 0 {
+		res.Classes = append(res.Classes, "further-pushes-through-what-the-archive-created")
+	}
 	if diff := fsx.Diff(before, after); len(diff) > 0 {
 		key := "C11/wrote-outside-working-directory"
 		changed := fsx.DiffPaths(before, after)
+		if len(c.Then) > 0 {
+			return res, vt.Failf(key, "Push of the archive (err=%v) and then of %q (errs %v) changed the file system outside the working directory: %v", perr, c.Then, thenErrs, diff)
+		}
 		// attribution of the two listed findings (root cause, not symptom)
 		if k := attribute(s, &c, changed); k != "" {
 			key = k
